@@ -8,7 +8,7 @@ use clvm_rs::allocator;
 use clvm_rs::allocator::{Allocator, NodePtr};
 
 use clvm_rs::error::EvalErr;
-use num_bigint::ToBigInt;
+use num_bigint::{Sign, ToBigInt};
 
 use sha2::Digest;
 use sha2::Sha256;
@@ -538,15 +538,22 @@ pub fn run_step(
                     ));
                 }
                 SExp::QuotedString(l, _, v) => {
+                    // A path is the unsigned value of the atom's bytes.
                     step = RunStep::Step(
-                        Rc::new(SExp::Integer(l.clone(), number_from_u8(v))),
+                        Rc::new(SExp::Integer(
+                            l.clone(),
+                            Number::from_bytes_be(Sign::Plus, v),
+                        )),
                         context.clone(),
                         parent.clone(),
                     );
                 }
                 SExp::Atom(l, v) => {
                     step = RunStep::Step(
-                        Rc::new(SExp::Integer(l.clone(), number_from_u8(v))),
+                        Rc::new(SExp::Integer(
+                            l.clone(),
+                            Number::from_bytes_be(Sign::Plus, v),
+                        )),
                         context.clone(),
                         parent.clone(),
                     );
